@@ -20,6 +20,8 @@ func buildProfile() (lifes, forms, variants []int) {
 		return all, []int{kit.IdPlain, kit.IdVoid, kit.IdVoidErr, kit.IdMulti, kit.IdResObj}, []int{0, 1, 11, 3}
 	case 4: // the same dependency twice, one type under two keys, embedded fields
 		return all, []int{kit.IdPlain, kit.IdResObj2}, []int{0, 1, 9, 23, 24, 25}
+	case 5: // multi-member interface groups whose members have dependencies of their own (n=4)
+		return []int{kit.LSingleton}, []int{kit.IdPlain, kit.IdAsGroup}, []int{0, 1, 8, 11}
 	case 3: // small: plain edges, optional edge (for n=3 order permutations)
 		return all, []int{kit.IdPlain}, []int{0, 1, 6, 11}
 	}
@@ -105,7 +107,59 @@ func H_Build() {
 	w := kit.PickWorld(n, lifes, forms, variants)
 	vrt.Assume(sane(w))
 	vrt.Assume(!w.Duplicate())
+	c := godi.NewCollection()
+	errs := w.Register(c)
+	vrt.Assume(!addErrs(errs, n))
+	checkBuild(w, c)
+}
 
+// H_Rebuild: a collection that has already been built once is edited - one
+// registration removed and registered again with another lifetime and another
+// dependency shape (the registration count stays the same) - and built again:
+// the second Build must judge the edited registration set, exactly as a fresh
+// collection would.
+func H_Rebuild() {
+	n := vrt.Param("n", 2)
+	lifes, forms, variants := buildProfile()
+	for _, f := range forms {
+		if f != kit.IdPlain {
+			panic("H_Rebuild: plain identities only")
+		}
+	}
+	w := kit.PickWorld(n, lifes, forms, variants)
+	vrt.Assume(sane(w))
+	c := godi.NewCollection()
+	errs := w.Register(c)
+	vrt.Assume(!addErrs(errs, n))
+	p0, err0 := c.Build()
+	if err0 == nil {
+		vrt.Cover("first_build_ok")
+		p0.Close()
+	} else {
+		vrt.Cover("first_build_failed")
+	}
+	r := vrt.Pick("edit", 0, n-1)
+	c.Remove(kit.TypeS[r])
+	w.Regs[r].Life = lifes[vrt.Pick("elife", 0, len(lifes)-1)]
+	w.Regs[r].Variant = variants[vrt.Pick("evar", 0, len(variants)-1)]
+	vrt.Assume(w.Add(c, r) == nil)
+	// r is now the last registration
+	k := 0
+	for j := 0; j < n; j++ {
+		if w.Order[j] != r {
+			w.Order[k] = w.Order[j]
+			k++
+		}
+	}
+	w.Order[n-1] = r
+	kit.Reset()
+	checkBuild(w, c)
+}
+
+// checkBuild: Build verdict of collection c against the model's dependency
+// relation of world w, and what a successfully built provider can then do.
+func checkBuild(w *kit.World, c godi.Collection) {
+	n := w.N
 	cyc := w.Cyclic()
 	cycPlain := w.CyclicWithoutGroups()
 	conflict, conflictGroupOnly := w.Conflict()
@@ -116,9 +170,6 @@ func H_Build() {
 	vrt.Finding("KF-C08-lazy-missing", w.LazyMissing())
 	knownBuildDefects(w)
 
-	c := godi.NewCollection()
-	errs := w.Register(c)
-	vrt.Assume(!addErrs(errs, n))
 	checkDeclared(w, c)
 	vrt.Limit("C05.nontermination")
 	p, err := c.Build()
